@@ -9,6 +9,8 @@ import YaqsModel.Lemmas.TrotterPauli
 import YaqsModel.Lemmas.TrotterKron
 import YaqsModel.Lemmas.TrotterHubbardGates
 import YaqsModel.Lemmas.TrotterHubbard
+import YaqsModel.Lemmas.Strang
+import YaqsModel.Lemmas.StrangHubbard
 
 /-!
 # C07 — model library: MPO builders equal their definition; Trotter circuits match them
@@ -1611,5 +1613,198 @@ end hubbard_converges
 
 example := hubbard1d_trotter_converges 2 (1 / 2) 1 (1 / 3) (1 / 10) 3 (by decide)
 example := hubbard2d_trotter_converges 2 2 (1 / 2) 1 (1 / 3) (1 / 10) 1 (by decide)
+
+end Yaqs.Trotter
+
+
+/-! ## xs07 extension — second-order accuracy of the palindromic (Strang) arrangement as a theorem
+
+`create_1d_fermi_hubbard_circuit` / `create_2d_fermi_hubbard_circuit` run, per sub-step, `chemical_potential_term(½)`,
+`onsite_interaction_term(½)`, `kinetic_hopping_term(1)`, `onsite_interaction_term(½)`, `chemical_potential_term(½)`.  The outer
+arrangement is palindromic; the hopping block in the middle is a plain product over bonds (1-D: even bonds, then odd bonds; 2-D:
+horizontal odd/even, vertical odd/even) and is NOT symmetrised.  Hence: the sub-step is a Strang step around the *product* of the
+hopping factors; it is third-order locally (second-order globally) exactly when that product is the exact hopping flow (no bond,
+or one bond per spin species: `L ≤ 2` resp. `Lx·Ly ≤ 2`), and otherwise first-order globally with the whole `O(τ²)` defect coming
+from the inner block.  The theorems below say precisely this; nothing more is claimed. -/
+namespace Yaqs.Trotter
+
+open Matrix NormedSpace Yaqs.TrotterLimit Yaqs.Strang
+
+/-- **C07 (`strang_symmetric_cancellation`: the algebraic core of second order)** in any ring, for arbitrary `EX`, `EY` (standing for
+    `e^X`, `e^Y`) and `hX`, `hY` (standing for `X²/2`, `Y²/2`): `EX·EY·EX` minus the degree-2 Taylor polynomial `1 + Z + Z²/2` of
+    `Z = X + Y + X` (with `Z²/2 = hX + hX + X·X + X·Y + Y·X + hY`) is a sum of seven products each containing a Taylor remainder of
+    total order three — every term of order `≤ 2` cancels identically.  This cancellation is the palindromic symmetry; for the
+    unsymmetric `EX·EY` the commutator survives (`first_order_not_second`). -/
+theorem strang_symmetric_cancellation {R : Type} [Ring R] (EX EY X Y hX hY : R) :
+    EX * EY * EX - (1 + (X + Y + X) + (hX + hX + X * X + X * Y + Y * X + hY))
+      = (EX - 1 - X - hX) * EY * EX + hX * (EY * EX - 1) + X * (EY * EX - 1 - (Y + X)) + (EX - 1 - X - hX)
+        + Y * (EX - 1 - X) + hY * (EX - 1) + (EY - 1 - Y - hY) * EX :=
+  strang_identity EX EY X Y hX hY
+
+example : (3 : ℤ) * 5 * 3 - (1 + (2 + 4 + 2) + (2 + 2 + 2 * 2 + 2 * 4 + 4 * 2 + 8)) = 45 - 41 := by decide
+
+section strang
+variable {𝔸 : Type} [NormedRing 𝔸] [NormedAlgebra ℂ 𝔸] [CompleteSpace 𝔸]
+
+/-- **C07 (`strang_local_error`: third-order local error of the palindromic step)** in every complete normed `ℂ`-algebra with `‖1‖ ≤ 1`
+    (complex matrices in the spectral norm: `l2_norm_one_le`), for all `A`, `B` and every complex step `τ` (real `t`: `τ = t`,
+    `‖τ‖ = |t|`), with `σ = ‖τ‖(‖A‖ + ‖B‖)`:
+    `‖e^{(τ/2)A} e^{τB} e^{(τ/2)A} − e^{τ(A+B)}‖ ≤ σ³/3 · e^σ`, and inside the radius `σ ≤ 1` this is `≤ (‖A‖+‖B‖)³ · ‖τ‖³`
+    (cubic Taylor remainder `‖e^X − 1 − X − X²/2‖ ≤ ‖X‖³e^{‖X‖}/6` from the power series + `strang_symmetric_cancellation`). -/
+theorem strang_local_error (h1 : ‖(1 : 𝔸)‖ ≤ 1) (τ : ℂ) (A B : 𝔸) :
+    ‖exp ((τ / 2) • A) * exp (τ • B) * exp ((τ / 2) • A) - exp (τ • (A + B))‖
+      ≤ (‖τ‖ * (‖A‖ + ‖B‖)) ^ 3 / 3 * Real.exp (‖τ‖ * (‖A‖ + ‖B‖)) ∧
+    (‖τ‖ * (‖A‖ + ‖B‖) ≤ 1 →
+      ‖exp ((τ / 2) • A) * exp (τ • B) * exp ((τ / 2) • A) - exp (τ • (A + B))‖ ≤ (‖A‖ + ‖B‖) ^ 3 * ‖τ‖ ^ 3) :=
+  ⟨strang_local h1 τ A B, strang_local_radius h1 τ A B⟩
+
+end strang
+
+example := strang_local_error (𝔸 := ℂ) (by simp) (1 / 3) Complex.I 2
+
+section strang_matrix
+variable {n : Type} [Fintype n] [DecidableEq n]
+open scoped Matrix.Norms.L2Operator
+
+/-- **C07 (`strang_global`: second-order global error)** for skew-Hermitian `A`, `B` (every factor and the exact flow are unitary —
+    proved, not assumed) `N` palindromic steps of size `T/N` satisfy, in the spectral norm,
+    `‖(e^{(T/2N)A} e^{(T/N)B} e^{(T/2N)A})^N − e^{T(A+B)}‖ ≤ |T|³ (‖A‖+‖B‖)³ e^{|T|(‖A‖+‖B‖)} / (3N²)`
+    (telescoping `Sᴺ − Eᴺ = Σ S^k (S − E) E^{N−1−k}` + `strang_local_error`). -/
+theorem strang_global (A B : Matrix n n ℂ) (hA : Aᴴ = -A) (hB : Bᴴ = -B) (T : ℝ) (N : ℕ) (hN : 0 < N) :
+    ‖(exp ((((T / N : ℝ) : ℂ) / 2) • A) * exp (((T / N : ℝ) : ℂ) • B) * exp ((((T / N : ℝ) : ℂ) / 2) • A)) ^ N
+        - exp ((T : ℂ) • (A + B))‖
+      ≤ |T| ^ 3 * (‖A‖ + ‖B‖) ^ 3 * Real.exp (|T| * (‖A‖ + ‖B‖)) / (3 * (N : ℝ) ^ 2) :=
+  strang_global_matrix A B hA hB T N hN
+
+end strang_matrix
+
+example := strang_global (genMat 1 ([Op.X], 1)) (genMat 1 ([Op.Z], 1 / 2)) (genMat_skew _ _) (genMat_skew _ _) 2 5 (by decide)
+
+section hubbard_strang
+open scoped Matrix.Norms.L2Operator
+
+/-- **C07 (`c07_hubbard_second_order`: what the palindromic Fermi–Hubbard sub-step buys, 1-D builder)** for
+    `create_1d_fermi_hubbard_circuit(L, u, t, μ, n, dt, timesteps)`, `n ≠ 0`, `τ = dt/n`, with `D = Σ(chem ++ onsite)`
+    (diagonal `I/Z` strings: they commute, so each outer half block `½chem ½onsite` / `½onsite ½chem` is exactly `e^{(τ/2)D}` although
+    the lists are not reversed term by term), `K = Σ hop`, `M(τ)` = the product of the hopping factors in circuit order,
+    `σ = |τ|(‖D‖+‖K‖)`, `-iH_JW = D + K`:
+    1. the sub-step is `e^{(τ/2)D} · M(τ) · e^{(τ/2)D}` — a Strang step around the hopping *product*;
+    2. `‖sub-step − e^{-iτH_JW}‖ ≤ ‖M(τ) − e^{τK}‖ + σ³/3·e^σ`: third order up to the defect of the middle block;
+    3. `‖M(τ) − e^{τK}‖ ≤ τ² s² e^{|τ|s}`, `s = Σ‖hop generators‖` (xt07's bound: the even/odd hopping layers are not symmetrised, so
+       for `L ≥ 3` the code is first order only); if the hopping generators commute pairwise — `L ≤ 2` — then `M(τ) = e^{τK}` and the
+       sub-step is genuinely third-order accurate;
+    4. the whole circuit (`n·timesteps` sub-steps): `‖circuit − (e^{-iτH_JW})^{n·timesteps}‖ ≤ n·timesteps·(bound of 2)`. -/
+theorem c07_hubbard_second_order (L : Nat) (u t mu dt : Rat) (n : Nat) (hn : n ≠ 0) :
+    circMat (2 * L) (fh1dSubstep L u t mu dt n)
+      = exp (((((dt / n : ℚ) : ℝ) : ℂ) / 2) • genSum (2 * L) (fh1dChemT L mu ++ fh1dOnsiteT L u))
+        * stepUnitary (2 * L) ((fh1dHopT L t).map (scaleGen (dt / n)))
+        * exp (((((dt / n : ℚ) : ℝ) : ℂ) / 2) • genSum (2 * L) (fh1dChemT L mu ++ fh1dOnsiteT L u)) ∧
+    ‖circMat (2 * L) (fh1dSubstep L u t mu dt n) - exp ((((dt / n : ℚ) : ℝ) : ℂ) • ((-Complex.I) • hubbardJW1d L u t mu))‖
+      ≤ ‖stepUnitary (2 * L) ((fh1dHopT L t).map (scaleGen (dt / n)))
+            - exp ((((dt / n : ℚ) : ℝ) : ℂ) • genSum (2 * L) (fh1dHopT L t))‖
+        + (|((dt / n : ℚ) : ℝ)| * (‖genSum (2 * L) (fh1dChemT L mu ++ fh1dOnsiteT L u)‖ + ‖genSum (2 * L) (fh1dHopT L t)‖)) ^ 3 / 3
+          * Real.exp (|((dt / n : ℚ) : ℝ)|
+              * (‖genSum (2 * L) (fh1dChemT L mu ++ fh1dOnsiteT L u)‖ + ‖genSum (2 * L) (fh1dHopT L t)‖)) ∧
+    (‖stepUnitary (2 * L) ((fh1dHopT L t).map (scaleGen (dt / n))) - exp ((((dt / n : ℚ) : ℝ) : ℂ) • genSum (2 * L) (fh1dHopT L t))‖
+      ≤ ((dt / n : ℚ) : ℝ) ^ 2 * (((fh1dHopT L t).map (genMat (2 * L))).map norm).sum ^ 2
+          * Real.exp (|((dt / n : ℚ) : ℝ)| * (((fh1dHopT L t).map (genMat (2 * L))).map norm).sum)) ∧
+    ((((fh1dHopT L t).map (scaleGen (dt / n))).map (genMat (2 * L))).Pairwise Commute →
+      stepUnitary (2 * L) ((fh1dHopT L t).map (scaleGen (dt / n)))
+        = exp ((((dt / n : ℚ) : ℝ) : ℂ) • genSum (2 * L) (fh1dHopT L t))) ∧
+    ∀ steps : Nat,
+      ‖circMat (2 * L) (fh1dCircuit L u t mu dt n steps)
+          - exp ((n * steps) • ((((dt / n : ℚ) : ℝ) : ℂ) • ((-Complex.I) • hubbardJW1d L u t mu)))‖
+        ≤ ((n * steps : ℕ) : ℝ) *
+          (‖stepUnitary (2 * L) ((fh1dHopT L t).map (scaleGen (dt / n)))
+              - exp ((((dt / n : ℚ) : ℝ) : ℂ) • genSum (2 * L) (fh1dHopT L t))‖
+          + (|((dt / n : ℚ) : ℝ)| * (‖genSum (2 * L) (fh1dChemT L mu ++ fh1dOnsiteT L u)‖ + ‖genSum (2 * L) (fh1dHopT L t)‖)) ^ 3 / 3
+            * Real.exp (|((dt / n : ℚ) : ℝ)|
+                * (‖genSum (2 * L) (fh1dChemT L mu ++ fh1dOnsiteT L u)‖ + ‖genSum (2 * L) (fh1dHopT L t)‖))) := by
+  obtain ⟨hA, hB⟩ := fh1d_diag L u mu
+  obtain ⟨h1, h2, h3⟩ := hubbard_strang_local (2 * L) _ _ (fh1dHopT L t) hA hB (dt / n)
+  have hp := fh1d_substep_palindrome L u t mu dt n hn
+  refine ⟨hp.trans h1, ?_, h3, middle_exact_of_commute _ _ _, fun steps => ?_⟩
+  · rw [hp, ← fh1d_genSum]; exact h2
+  · rw [fh1d_circuit_pow, hp, ← fh1d_genSum]
+    exact hubbard_strang_global (2 * L) _ _ (fh1dHopT L t) hA hB (dt / n) (n * steps)
+
+/-- **C07 (`c07_hubbard2d_second_order`)** the same for `create_2d_fermi_hubbard_circuit(Lx, Ly, …)` (layout `↑[p] = 2p`, `↓[p] = 2p+1`,
+    hopping blocks along `fh2dBonds` = horizontal odd, horizontal even, vertical odd, vertical even — not symmetrised):
+    structure, local bound with the defect of the hopping product, xt07's quadratic bound for that defect, and the global bound. -/
+theorem c07_hubbard2d_second_order (Lx Ly : Nat) (u t mu dt : Rat) (n : Nat) (hn : n ≠ 0) :
+    circMat (2 * (Lx * Ly)) (fh2dSubstep Lx Ly u t mu dt n)
+      = exp (((((dt / n : ℚ) : ℝ) : ℂ) / 2) • genSum (2 * (Lx * Ly)) (fh2dChemT Lx Ly mu ++ fh2dOnsiteT Lx Ly u))
+        * stepUnitary (2 * (Lx * Ly)) ((fh2dHopT Lx Ly t).map (scaleGen (dt / n)))
+        * exp (((((dt / n : ℚ) : ℝ) : ℂ) / 2) • genSum (2 * (Lx * Ly)) (fh2dChemT Lx Ly mu ++ fh2dOnsiteT Lx Ly u)) ∧
+    ‖circMat (2 * (Lx * Ly)) (fh2dSubstep Lx Ly u t mu dt n)
+        - exp ((((dt / n : ℚ) : ℝ) : ℂ) • ((-Complex.I) • hubbardJW2d Lx Ly u t mu))‖
+      ≤ ‖stepUnitary (2 * (Lx * Ly)) ((fh2dHopT Lx Ly t).map (scaleGen (dt / n)))
+            - exp ((((dt / n : ℚ) : ℝ) : ℂ) • genSum (2 * (Lx * Ly)) (fh2dHopT Lx Ly t))‖
+        + (|((dt / n : ℚ) : ℝ)| * (‖genSum (2 * (Lx * Ly)) (fh2dChemT Lx Ly mu ++ fh2dOnsiteT Lx Ly u)‖
+              + ‖genSum (2 * (Lx * Ly)) (fh2dHopT Lx Ly t)‖)) ^ 3 / 3
+          * Real.exp (|((dt / n : ℚ) : ℝ)| * (‖genSum (2 * (Lx * Ly)) (fh2dChemT Lx Ly mu ++ fh2dOnsiteT Lx Ly u)‖
+              + ‖genSum (2 * (Lx * Ly)) (fh2dHopT Lx Ly t)‖)) ∧
+    (‖stepUnitary (2 * (Lx * Ly)) ((fh2dHopT Lx Ly t).map (scaleGen (dt / n)))
+        - exp ((((dt / n : ℚ) : ℝ) : ℂ) • genSum (2 * (Lx * Ly)) (fh2dHopT Lx Ly t))‖
+      ≤ ((dt / n : ℚ) : ℝ) ^ 2 * (((fh2dHopT Lx Ly t).map (genMat (2 * (Lx * Ly)))).map norm).sum ^ 2
+          * Real.exp (|((dt / n : ℚ) : ℝ)| * (((fh2dHopT Lx Ly t).map (genMat (2 * (Lx * Ly)))).map norm).sum)) ∧
+    ∀ steps : Nat,
+      ‖circMat (2 * (Lx * Ly)) (fh2dCircuit Lx Ly u t mu dt n steps)
+          - exp ((n * steps) • ((((dt / n : ℚ) : ℝ) : ℂ) • ((-Complex.I) • hubbardJW2d Lx Ly u t mu)))‖
+        ≤ ((n * steps : ℕ) : ℝ) *
+          (‖stepUnitary (2 * (Lx * Ly)) ((fh2dHopT Lx Ly t).map (scaleGen (dt / n)))
+              - exp ((((dt / n : ℚ) : ℝ) : ℂ) • genSum (2 * (Lx * Ly)) (fh2dHopT Lx Ly t))‖
+          + (|((dt / n : ℚ) : ℝ)| * (‖genSum (2 * (Lx * Ly)) (fh2dChemT Lx Ly mu ++ fh2dOnsiteT Lx Ly u)‖
+                + ‖genSum (2 * (Lx * Ly)) (fh2dHopT Lx Ly t)‖)) ^ 3 / 3
+            * Real.exp (|((dt / n : ℚ) : ℝ)| * (‖genSum (2 * (Lx * Ly)) (fh2dChemT Lx Ly mu ++ fh2dOnsiteT Lx Ly u)‖
+                + ‖genSum (2 * (Lx * Ly)) (fh2dHopT Lx Ly t)‖))) := by
+  obtain ⟨hA, hB⟩ := fh2d_diag Lx Ly u mu
+  obtain ⟨h1, h2, h3⟩ := hubbard_strang_local (2 * (Lx * Ly)) _ _ (fh2dHopT Lx Ly t) hA hB (dt / n)
+  have hp := fh2d_substep_palindrome Lx Ly u t mu dt n hn
+  refine ⟨hp.trans h1, ?_, h3, fun steps => ?_⟩
+  · rw [hp, ← fh2d_genSum]; exact h2
+  · rw [fh2d_circuit_pow, hp, ← fh2d_genSum]
+    exact hubbard_strang_global (2 * (Lx * Ly)) _ _ (fh2dHopT Lx Ly t) hA hB (dt / n) (n * steps)
+
+end hubbard_strang
+
+example := c07_hubbard_second_order 3 (1 / 2) 1 (1 / 3) (1 / 10) 2 (by decide)
+example := c07_hubbard2d_second_order 2 2 (1 / 2) 1 (1 / 3) (1 / 10) 1 (by decide)
+/-- `L = 1`: no bond, the hopping list is empty, the commutation hypothesis of clause 3 holds trivially -/
+example : fh1dHopT 1 1 = [] ∧ (fh1dHopT 2 1).length = 4 ∧ (fh1dHopT 3 1).length = 8 := by decide +kernel
+
+/-- **C07 (`first_order_not_second`: the symmetric arrangement is what buys the order)** (a) in any ring the second-order Taylor
+    coefficient (times 2) of the unsymmetric product `e^{tX}e^{tY}`, `X² + 2XY + Y²`, differs from that of `e^{t(X+Y)}`, `(X+Y)²`, by the
+    commutator `[X, Y]`; (b) the `2×2` rational example `A = E₀₁`, `B = E₁₀` (`A² = B² = 0`, so `1 + sA = e^{sA}`, `1 + sB = e^{sB}` exactly):
+    for every `t`, `e^{tA}e^{tB} − P₂(t(A+B)) = (t²/2)·[A,B]` with `[A,B] ≠ 0` — a `t²` error —, whereas the palindromic
+    `e^{(t/2)A}e^{tB}e^{(t/2)A} − P₂(t(A+B)) = (t³/4)·A` has no term below `t³`. -/
+theorem first_order_not_second :
+    (∀ (R : Type) [Ring R] (X Y : R), (X * X + (X * Y + X * Y) + Y * Y) - (X + Y) * (X + Y) = X * Y - Y * X) ∧
+    (!![0, 1; 0, 0] * !![0, 1; 0, 0] = (0 : Matrix (Fin 2) (Fin 2) ℚ)) ∧
+    (!![0, 0; 1, 0] * !![0, 0; 1, 0] = (0 : Matrix (Fin 2) (Fin 2) ℚ)) ∧
+    (∀ t : ℚ, (1 + t • !![0, 1; 0, 0]) * (1 + t • !![0, 0; 1, 0])
+        - (1 + t • (!![0, 1; 0, 0] + !![0, 0; 1, 0])
+            + (t ^ 2 / 2) • ((!![0, 1; 0, 0] + !![0, 0; 1, 0]) * (!![0, 1; 0, 0] + !![0, 0; 1, 0])))
+      = (t ^ 2 / 2) • (!![0, 1; 0, 0] * !![0, 0; 1, 0] - !![0, 0; 1, 0] * !![0, 1; 0, 0] : Matrix (Fin 2) (Fin 2) ℚ)) ∧
+    (!![0, 1; 0, 0] * !![0, 0; 1, 0] - !![0, 0; 1, 0] * !![0, 1; 0, 0] ≠ (0 : Matrix (Fin 2) (Fin 2) ℚ)) ∧
+    (∀ t : ℚ, (1 + (t / 2) • !![0, 1; 0, 0]) * (1 + t • !![0, 0; 1, 0]) * (1 + (t / 2) • !![0, 1; 0, 0])
+        - (1 + t • (!![0, 1; 0, 0] + !![0, 0; 1, 0])
+            + (t ^ 2 / 2) • ((!![0, 1; 0, 0] + !![0, 0; 1, 0]) * (!![0, 1; 0, 0] + !![0, 0; 1, 0])))
+      = (t ^ 3 / 4) • (!![0, 1; 0, 0] : Matrix (Fin 2) (Fin 2) ℚ)) := by
+  refine ⟨fun R _ X Y => by noncomm_ring, ?_, ?_, ?_, ?_, ?_⟩
+  · ext i j; fin_cases i <;> fin_cases j <;> simp [Matrix.mul_apply, Fin.sum_univ_two]
+  · ext i j; fin_cases i <;> fin_cases j <;> simp [Matrix.mul_apply, Fin.sum_univ_two]
+  · intro t
+    ext i j
+    fin_cases i <;> fin_cases j <;> simp [Matrix.mul_apply, Fin.sum_univ_two, Matrix.one_apply] <;> ring
+  · intro h
+    have h00 := congrFun (congrFun h 0) 0
+    simp at h00
+  · intro t
+    ext i j
+    fin_cases i <;> fin_cases j <;> simp [Matrix.mul_apply, Fin.sum_univ_two, Matrix.one_apply] <;> ring
+
+example : (!![0, 1; 0, 0] * !![0, 0; 1, 0] - !![0, 0; 1, 0] * !![0, 1; 0, 0] : Matrix (Fin 2) (Fin 2) ℚ) = !![1, 0; 0, -1] := by
+  ext i j; fin_cases i <;> fin_cases j <;> simp
 
 end Yaqs.Trotter
